@@ -658,8 +658,7 @@ def excl (ps : PState) (toks : List String) : List String × Bool :=
     | some (_, t), some ax =>
       if ax == -1 then ([], false)
       else
-        let f28 := match Red.argAxes t.dims ax with | some axes => Excl_vectorT t axes | none => false
-        (tag f28 "F28" ++ tag (Excl_shortStrides t) "F24", false)
+        (tag (Excl_shortStrides t) "F24", false)
     | _, _ => ([], false)
   | "mred" :: opn :: _ :: a :: axes :: _ =>
     match ps.obj a, parseIntList axes, Red.opOf opn with
